@@ -331,6 +331,15 @@ def onEvent (s : St) (w : World) (ev : Event) (fuel budget : Nat) : St × World 
     if s.mode == .masterOnly then (s, w, [], true) else refreshRetry fuel s w budget
   | _ => (s, w, [], true)
 
+/-- A +switch-master / +reboot event delivered WHILE a refresh holds `c.mu`: `switchTargetRetry` blocks in
+    `c.mu.Lock()` until `_refresh` releases the mutex, then handles the event — the two serialise, the
+    event is processed after the refresh, never dropped. Returns the refresh result too. -/
+def eventDuringRefresh (s : St) (w : World) (ev : Event) (fuel budget : Nat) :
+    St × World × List Act × RefreshRes :=
+  let r := refresh s w budget
+  let e := onEvent r.1 r.2.1 ev fuel budget
+  (e.1, e.2.1, r.2.2.1 ++ e.2.2.1, r.2.2.2)
+
 /-- where user traffic goes: `pick` with the replica decision already made -/
 def userTarget (s : St) (toReplica : Bool) : Option Conn :=
   if s.mode == .replicaOnly then s.rConn
